@@ -172,7 +172,7 @@ def call_builtin(I, name, args, kwargs, fr):
         v = args[0]
         if isinstance(v, VStr):
             return v
-        if isinstance(v, VInt):
+        if isinstance(v, (VInt, VBool)) and not isinstance(v, VBool):
             return I.call_spec('int_str', v)
         return VStr(p.fresh_str('str'))
     if name in ('repr', 'format'):
@@ -326,6 +326,39 @@ def call_builtin_super(I, recv, name, args, kwargs, fr):
     raise OutOfSubset('super().%s on builtin base' % name)
 
 
+def format_str(I, recv, args, kwargs, fr):
+    """'...{}...'.format(a, b): concatenation of the literal pieces and str() of the arguments, for constant format
+    strings whose fields are all plain `{}`; anything else (message texts) is an opaque string"""
+    import string
+    p = I.path
+    if not z3.is_string_value(recv.t) or kwargs:
+        return VStr(p.fresh_str('fmt'))
+    try:
+        parts = list(string.Formatter().parse(recv.t.as_string()))
+    except ValueError:
+        return VStr(p.fresh_str('fmt'))
+    out = []
+    ai = 0
+    for lit, field, spec, conv in parts:
+        if lit:
+            out.append(z3.StringVal(lit))
+        if field is None:
+            continue
+        if field != '' or spec or conv or ai >= len(args):
+            return VStr(p.fresh_str('fmt'))
+        a = args[ai]
+        ai += 1
+        if isinstance(a, VStr):
+            out.append(a.t)
+        elif isinstance(a, VInt):
+            out.append(I.call_spec('int_str', a).t)
+        else:
+            return VStr(p.fresh_str('fmt'))
+    if not out:
+        return VStr('')
+    return VStr(out[0] if len(out) == 1 else z3.Concat(*out))
+
+
 def call_method(I, recv, name, args, kwargs, fr):
     p = I.path
     if isinstance(recv, VSeq):
@@ -434,7 +467,13 @@ def call_method(I, recv, name, args, kwargs, fr):
             return VSeq(r.t, 'bytes')
     if isinstance(recv, VStr):
         if name == 'format':
-            return VStr(p.fresh_str('fmt'))
+            return format_str(I, recv, args, kwargs, fr)
+        if name == 'replace' and len(args) == 2 and all(isinstance(a, VStr) for a in args):
+            return I.call_spec('replace_all', recv, args[0], args[1])
+        if name == 'upper':
+            return I.call_spec('str_upper', recv)
+        if name == 'lstrip' and len(args) == 1 and isinstance(args[0], VStr):
+            return I.call_spec('str_lstrip', recv, args[0])
         if name == 'join':
             v = args[0]
             if isinstance(v, (VList, VTuple)) and all(isinstance(x, VStr) for x in v.items):
